@@ -6,6 +6,7 @@ use std::collections::HashSet;
 use std::sync::Arc;
 
 use sophia_api::prelude::*;
+use sophia_api::term::VarName;
 use sophia_term::ArcStrStash;
 use sophia_term::ArcTerm;
 use spargebra::algebra::Expression;
@@ -16,6 +17,7 @@ use spargebra::term::NamedNodePattern;
 use spargebra::term::TriplePattern;
 use spargebra::term::Variable;
 
+use crate::ResultTerm;
 use crate::SparqlWrapperError;
 use crate::bgp;
 use crate::binding::Binding;
@@ -303,10 +305,31 @@ impl<'a, D: Dataset + ?Sized> ExecState<'a, D> {
         binding: Option<&Binding>,
     ) -> Result<Bindings<'a, D>, SparqlWrapperError<D::Error>> {
         if let Some(name) = graph_names.next() {
-            let mut b = binding.cloned().unwrap_or_else(Binding::default);
-            b.v.insert(self.stash.copy_str(var), name.clone().into());
-            let graph_matcher = vec![Some(name)];
-            let Bindings { variables, iter } = self.select(inner, &graph_matcher, Some(&b))?;
+            // NB: `var` is not pre-bound while evaluating `inner`
+            // (it must not be visible to the expressions of `inner`);
+            // its binding is joined with each solution of `inner` afterwards.
+            let graph_matcher = vec![Some(name.clone())];
+            let Bindings {
+                mut variables,
+                iter,
+            } = self.select(inner, &graph_matcher, binding)?;
+            let varname = VarName::new_unchecked(self.stash.copy_str(var));
+            if !variables.contains(&varname) {
+                variables.push(varname.clone());
+            }
+            let varkey = varname.unwrap();
+            let name = ResultTerm::from(name);
+            let iter = iter.filter_map(move |resb| match resb {
+                Err(e) => Some(Err(e)),
+                Ok(mut b) => match b.v.get(&varkey) {
+                    Some(other) if !Term::eq(other, name.borrow_term()) => None,
+                    Some(_) => Some(Ok(b)),
+                    None => {
+                        b.v.insert(varkey.clone(), name.clone());
+                        Some(Ok(b))
+                    }
+                },
+            });
             let iter = Box::new(iter.chain(Box::new(
                 self.graph_rec(var, graph_names, inner, binding)?.iter,
             )));
